@@ -1,0 +1,130 @@
+//! Verification hooks (only compiled with `--cfg aranya_core_verif`).
+//!
+//! A global function-pointer *yield hook* is called immediately before every shared-memory
+//! access of the concurrency primitives (`mutex.rs`, `memory/lender.rs`), so that a harness
+//! can run real threads under a cooperative scheduler and compare the executions with a
+//! transition-system model.  The futex calls of `mutex.rs` can be routed to the harness, and
+//! allocation / free / access notifications carry the address of the object.
+//!
+//! With the cfg off none of this exists; with the cfg on and no hook installed every function
+//! here is a no-op and the real futex is used.
+
+#![allow(missing_docs, clippy::missing_panics_doc)]
+
+use core::sync::atomic::{AtomicU32, AtomicUsize, Ordering};
+
+static YIELD_HOOK: AtomicUsize = AtomicUsize::new(0);
+static MEM_HOOK: AtomicUsize = AtomicUsize::new(0);
+static FUTEX_WAIT_HOOK: AtomicUsize = AtomicUsize::new(0);
+static FUTEX_WAKE_HOOK: AtomicUsize = AtomicUsize::new(0);
+
+/// Installs the yield hook: called with a static label before each shared-memory access.
+pub fn set_hook(f: fn(&'static str)) {
+    YIELD_HOOK.store(f as usize, Ordering::SeqCst);
+}
+
+/// Installs the memory hook: `(event, address)` for `alloc` / `free` / `access` events.
+pub fn set_mem_hook(f: fn(&'static str, usize)) {
+    MEM_HOOK.store(f as usize, Ordering::SeqCst);
+}
+
+/// Installs the futex hooks. Each returns `true` if it handled the call (the real futex
+/// syscall is then skipped).
+pub fn set_futex_hooks(wait: fn(&AtomicU32, u32) -> bool, wake: fn(&AtomicU32, u32) -> bool) {
+    FUTEX_WAIT_HOOK.store(wait as usize, Ordering::SeqCst);
+    FUTEX_WAKE_HOOK.store(wake as usize, Ordering::SeqCst);
+}
+
+/// A yield point.
+#[inline]
+pub fn yield_point(label: &'static str) {
+    let p = YIELD_HOOK.load(Ordering::SeqCst);
+    if p != 0 {
+        // SAFETY: only `set_hook` stores here, and it stores a `fn(&'static str)`.
+        let f: fn(&'static str) = unsafe { core::mem::transmute::<usize, fn(&'static str)>(p) };
+        f(label);
+    }
+}
+
+/// A memory event.
+#[inline]
+pub fn mem_event(event: &'static str, addr: usize) {
+    let p = MEM_HOOK.load(Ordering::SeqCst);
+    if p != 0 {
+        // SAFETY: only `set_mem_hook` stores here, and it stores a `fn(&'static str, usize)`.
+        let f: fn(&'static str, usize) =
+            unsafe { core::mem::transmute::<usize, fn(&'static str, usize)>(p) };
+        f(event, addr);
+    }
+}
+
+/// Routed `futex_wait`; `true` = handled by the harness.
+#[inline]
+pub fn futex_wait(addr: &AtomicU32, val: u32) -> bool {
+    let p = FUTEX_WAIT_HOOK.load(Ordering::SeqCst);
+    if p == 0 {
+        return false;
+    }
+    // SAFETY: only `set_futex_hooks` stores here, with this type.
+    let f: fn(&AtomicU32, u32) -> bool =
+        unsafe { core::mem::transmute::<usize, fn(&AtomicU32, u32) -> bool>(p) };
+    f(addr, val)
+}
+
+/// Routed `futex_wake`; `true` = handled by the harness.
+#[inline]
+pub fn futex_wake(addr: &AtomicU32, cnt: u32) -> bool {
+    let p = FUTEX_WAKE_HOOK.load(Ordering::SeqCst);
+    if p == 0 {
+        return false;
+    }
+    // SAFETY: only `set_futex_hooks` stores here, with this type.
+    let f: fn(&AtomicU32, u32) -> bool =
+        unsafe { core::mem::transmute::<usize, fn(&AtomicU32, u32) -> bool>(p) };
+    f(addr, cnt)
+}
+
+/// The shared-memory mutex of `mutex.rs` (crate-private there), protecting a `u64`.
+#[cfg(any(feature = "memory", feature = "sdlib", feature = "posix"))]
+pub struct VMutex(crate::mutex::Mutex<u64>);
+
+/// Guard of [`VMutex`]; dropping it runs the real `MutexGuard::drop` (`sys_unlock`).
+#[cfg(any(feature = "memory", feature = "sdlib", feature = "posix"))]
+pub struct VGuard<'a>(crate::mutex::MutexGuard<'a, u64>);
+
+#[cfg(any(feature = "memory", feature = "sdlib", feature = "posix"))]
+impl VMutex {
+    pub fn new(v: u64) -> Self {
+        Self(crate::mutex::Mutex::new(v))
+    }
+    /// The real `Mutex::lock`.
+    pub fn lock(&self) -> VGuard<'_> {
+        match self.0.lock() {
+            Ok(g) => VGuard(g),
+            Err(e) => match e {},
+        }
+    }
+    /// Current value of the futex word (observation only, no yield point).
+    pub fn key(&self) -> u32 {
+        self.0.verif_key()
+    }
+}
+
+#[cfg(any(feature = "memory", feature = "sdlib", feature = "posix"))]
+impl core::ops::Deref for VGuard<'_> {
+    type Target = u64;
+    fn deref(&self) -> &u64 {
+        &self.0
+    }
+}
+
+#[cfg(any(feature = "memory", feature = "sdlib", feature = "posix"))]
+impl core::ops::DerefMut for VGuard<'_> {
+    fn deref_mut(&mut self) -> &mut u64 {
+        &mut self.0
+    }
+}
+
+/// `Lender` / `Loan` of `memory/lender.rs` (private module there).
+#[cfg(feature = "memory")]
+pub use crate::memory::verif_api::{Lender, Loan};
